@@ -20,6 +20,8 @@ Decided:
  Q5 initial stocking: each constructor of a stocked queue adds every buffer in a loop and propagates failure.
  Q7 free-running indices only compared for (in)equality / advanced with wrapping arithmetic (C03.E5).
  Q8 id and length are read from the same used-ring slot; refused polls change nothing (C03.E1/E2).
+ Q11 completion test across the index wrap (= C03.E9).  Q12 driver level: no path on which poll yielded an event loops to poll
+     again without returning or collecting that event.
 Not decided: "exactly once, count returns to SIZE" over histories.
 """
 from .common import *
